@@ -290,6 +290,11 @@ class Functor(pg_object.Object, utils.Functor):
 
   def __delattr__(self, name: str) -> None:
     """Discard a previously bound argument and reset to its default value."""
+    if not base.writtable_via_accessors(self):
+      raise base.WritePermissionError(
+          self._error_message(
+              f'Cannot delete attribute {name!r} while accessor_writable is '
+              f'set to False. Use \'rebind\' method instead.'))
     del self._sym_attributes[name]
     if self.__signature__.get_value_spec(name).has_default:
       self._default_args.add(name)
